@@ -409,3 +409,77 @@ def no_eos_mask_uses_its_own_extent(ctx, clause: str):
                f"`{u(st)}` compares lengths derived from `{sorted(pa)[0]}` with an extent derived from {sorted(pb) or '?'}: a "
                f"sequence lacks its eos when its length equals the extent of its own tensor", rel, st.lineno)
     col.floor("no_eos_masks", n, 2)
+
+
+FLOAT_CASTS = {"float", "double", "half", "bfloat16"}
+
+
+def tokens_compared_as_integers(ctx, clause: str):
+    """The sequences are integer token ids over ANY alphabet. Equality of two ids is decided exactly only in an integer dtype: a
+    cast of a token tensor to a floating type before it is compared (or handed to the eos-length helper, which compares it with
+    eos) identifies distinct ids that round to the same float (from 2**24 on in float32), making substitutions free and cutting
+    sequences at a non-eos token. No token operand of the kernel may derive from a floating-point cast."""
+    col, pkg = ctx.col, ctx.pkg
+    rel = pkg.module(MOD).relname
+    f = pkg.func(f"{MOD}::{KERNEL}")
+    where = f"{rel}::{KERNEL}"
+    rd = ReachingDefs(f.node)
+    toks = [p.name for p in f.params[:2]]
+
+    LAYOUT = {"detach", "t", "transpose", "contiguous", "unsqueeze", "squeeze", "clone", "view", "reshape", "expand", "expand_as", "flatten",
+              "permute", "long", "int", "cpu", "cuda", "masked_fill", "index_select", "narrow", "flip"}
+
+    def token_root(e, depth=0):
+        """(is a view / copy of a token tensor, float casts met on the way)."""
+        casts = []
+        while True:
+            if isinstance(e, ast.Subscript):
+                e = e.value
+            elif isinstance(e, ast.Call) and isinstance(e.func, ast.Attribute) and e.func.attr in FLOAT_CASTS and not e.args:
+                casts.append(e)
+                e = e.func.value
+            elif isinstance(e, ast.Call) and isinstance(e.func, ast.Attribute) and e.func.attr in ("to", "type"):
+                if any("float" in u(a) or "double" in u(a) or "half" in u(a) for a in list(e.args) + [k.value for k in e.keywords]):
+                    casts.append(e)
+                e = e.func.value
+            elif isinstance(e, ast.Call) and isinstance(e.func, ast.Attribute) and e.func.attr in LAYOUT:
+                e = e.func.value
+            else:
+                break
+        if isinstance(e, ast.Name):
+            ds = list(rd.defs_of(e))
+            if e.id in toks and all(d.kind == "param" for d in ds):
+                return True, casts
+            if depth < 6 and ds and all(d.kind in ("assign", "param") for d in ds):
+                oks = []
+                for d in ds:
+                    if d.kind == "param":
+                        oks.append((e.id in toks, []))
+                    elif d.value is not None:
+                        oks.append(token_root(d.value, depth + 1))
+                    else:
+                        oks.append((False, []))
+                if all(o for o, _ in oks):
+                    return True, casts + [c for _, cs in oks for c in cs]
+        return False, []
+    sites, bad = 0, []
+    for n in own_nodes(f.node):
+        operands = []
+        if isinstance(n, ast.Compare) and len(n.ops) == 1 and isinstance(n.ops[0], (ast.Eq, ast.NotEq)):
+            operands = [n.left, n.comparators[0]]
+        elif isinstance(n, ast.Call) and isinstance(n.func, ast.Attribute) and n.func.attr in ("eq", "ne") and n.args:
+            operands = [n.func.value, n.args[0]]
+        elif isinstance(n, ast.Call) and call_name(n).endswith("_lens_from_eos") and n.args:
+            operands = [n.args[0]]
+        for o in operands:
+            is_tok, cs = token_root(o)
+            if not is_tok:
+                continue
+            sites += 1
+            if cs:
+                bad.append((n, cs[0]))
+    col.floor("token_comparison_operands", sites, 3)
+    col.ob("G21", clause, f"{where}::token-ids-compared-in-an-integer-dtype", not bad,
+           (f"`{u(bad[0][0])[:70]}` compares token ids that went through `{u(bad[0][1])[:50]}`: in floating point distinct ids from 2**24 "
+            f"on are equal, so a substitution between them is free and a token next to eos ends the sequence") if bad else "", rel,
+           bad[0][0].lineno if bad else f.line, sample=sites)
